@@ -60,6 +60,10 @@ def sweep_bounds(tier):
         "TwoLevel": {"n": [24, 40, 64] if q else [24, 32, 40, 50, 64, 80, 100], "periods": "5,7,12,16,32,35,n-1,n,n+3",
                      "binomial_snapshots<=": 5 if q else 7},
         "HRevolve": {"n": [30, 45] if q else [26, 30, 36, 45, 56, 64, 80], "ram<=": 4 if q else 5, "disk<=": 4 if q else 5},
+        "TwoLevel many snapshots": {"n": [3, 5, 8, 12, 20] if q else [3, 4, 5, 6, 8, 10, 12, 18, 20, 24, 32],
+                                    "binomial_snapshots": [6, 7, 9, 12, 16, 17, 20, 30]},
+        "TwoLevel period sweep": {"period": [1, 130 if q else 200], "n": "period+1 and 2*period+1", "binomial_snapshots": [0, 1]},
+        "int-cache boundary": {"n": [256, 257] if q else [255, 256, 257, 300], "classes": "all, one or two small configurations each"},
         "Revolve/DiskRevolve/PeriodicDiskRevolve": {"n": [40, 64] if q else [40, 52, 64, 80, 100, 128],
                                                     "ram<=": "6/5/4" if q else "8/7/6"}}
     out["SingleMemory"] = {"n": "symbolic, 1..3*sys.maxsize", "passes": 3}
@@ -103,6 +107,23 @@ def sweep_jobs(tier, classes=None, passes=None):
     for n in ((24, 40, 64) if q else (24, 32, 40, 50, 64, 80, 100)):
         add("TwoLevel", n, 2 if q else 3, {"periods": [5, 7, 12, 16, 32, 35, n - 1, n, n + 3], "bmax": 5 if q else 7,
                                             "tag": "/probe"}, w=n * 6)
+    # TwoLevel: many binomial snapshots at small n; every period up to 130/200 with n = p+1, 2p+1
+    for n in (3, 5, 8, 12, 20) if q else (3, 4, 5, 6, 8, 10, 12, 18, 20, 24, 32):
+        add("TwoLevel", n, 2, {"b_list": [6, 7, 9, 12, 16, 17, 20, 30], "tag": "/manyb"}, w=n * 8)
+    for lo in range(1, 131 if q else 201, 10):
+        add("TwoLevel", None, 2, {"period_sweep": [lo, lo + 9], "b_list": [0, 1], "tag": "/periods%d" % lo}, w=lo)
+    # CPython caches small ints up to 256: one probe on either side for every class
+    for n in (256, 257) if q else (255, 256, 257, 300):
+        add("Multistage", n, 1, {"ram_max": 1, "disk_max": 2, "tag": "/intcache"}, w=n)
+        add("Mixed", n, 1, {"smax": 2, "tag": "/intcache"}, w=n * 3)
+        add("TwoLevel", n, 2, {"periods": [100, 128, n], "b_list": [0, 2], "tag": "/intcache"}, w=n * 4)
+        add("SingleDiskCopy", n, 2, {"tag": "/intcache"}, w=n)
+        add("SingleDiskMove", n, 1, {"tag": "/intcache"}, w=n)
+        add("Revolve", n, 1, {"rmin": 2, "rmax": 3, "cost_choices": PV[:1], "tag": "/intcache"}, w=n * 4)
+        add("DiskRevolve", n, 1, {"rmin": 2, "rmax": 2, "cost_choices": PV[:2], "tag": "/intcache"}, w=n * 6)
+        add("PeriodicDiskRevolve", n, 1, {"rmin": 2, "rmax": 2, "cost_choices": PV[:2], "tag": "/intcache"}, w=n * 4)
+        add("HRevolve", n, 1, {"rmin": 3, "rmax": 3, "dmin": 2, "dmax": 2, "cost_choices": PV[:1], "tag": "/intcache"},
+            w=n * 20)
     for n in ((30, 45) if q else (26, 30, 36, 45, 56, 64, 80)):
         add("HRevolve", n, 1, {"rmin": 1, "rmax": 4 if q else 5, "dmin": 0, "dmax": 4 if q else 5, "cost_choices": PV,
                                 "tag": "/probe"}, w=n * 8)
@@ -253,7 +274,9 @@ PROPS["C05"] = {
         "n_advance lemma": {"n": "symbolic, 2..2000 (s<=2: 300)" if tier == "quick" else "symbolic, 2..10^6 (s<=2: 3000)",
                             "s": [1, 6 if tier == "quick" else 12], "trajectory": "both"},
         "streams": {k: v for k, v in sweep_bounds(tier).items() if k in ("Multistage", "Revolve")},
-        "optimal_steps_binomial": {"n": [1, 14 if tier == "quick" else 40], "s": "symbolic, unbounded"}},
+        "optimal_steps_binomial": {"n": [1, 14 if tier == "quick" else 40], "s": "symbolic, unbounded"},
+        "get_opt_0_table": {"l": [0, 140 if tier == "quick" else 320], "slots": [1, 8 if tier == "quick" else 10],
+                            "costs": "symbolic uf, ub (one path)"}},
     "outside": ["s > 12 in the kernel lemma", "n beyond the bounds",
                 "that the Griewank-Walther closed form is the optimum over ALL schedules (GW2000 Prop. 1, trusted)"],
     "trusted": ["Griewank & Walther (2000), Proposition 1", "oracles.E_bin closed form (cross-checked against the "
@@ -321,13 +344,21 @@ PROPS["C13"] = {
 
 def c14_jobs(tier):
     q = tier == "quick"
-    return [_job("split", "n=%d" % n, {"n": n}, w=n * n) for n in range(1, (10 if q else 20) + 1)]
+    jobs = [_job("split", "n=%d" % n, {"n": n}, w=n * n) for n in range(1, (10 if q else 20) + 1)]
+    # sparse probes at larger n (total units s in a few values): rounding / truncation of the weights
+    big = [(30, (5, 9)), (45, (7,)), (60, (9, 12)), (64, (9,)), (80, (10,))] if q else \
+          [(n, (5, 7, 9, 10, 12, 16)) for n in (24, 30, 36, 45, 52, 60, 62, 64, 72, 80, 90, 100, 128)]
+    for n, ss in big:
+        jobs.append(_job("split", "n=%d/probe" % n, {"n": n, "s_list": list(ss)}, w=n * 3, deadline=3000))
+    return jobs
 
 
 PROPS["C14"] = {
     "fatal": ["C14."], "jobs": c14_jobs,
     "bounds": lambda tier: {"n": [1, 10 if tier == "quick" else 20], "s": "1..n+1 total units, every split (a, s-a)",
-                            "trajectory": "both"},
+                            "trajectory": "both",
+                            "probes": "n in {30,45,60,64,80} with s in {5,7,9,10,12}" if tier == "quick" else
+                                      "n in {24,30,36,45,52,60,62,64,72,80,90,100,128} with s in {5,7,9,10,12,16}"},
     "outside": ["n beyond the bound"], "trusted": ["z3"], "stubs": STUBS, "assumptions": [],
     "technique": "symbolic execution with z3 (solver-enumerated (s, trajectory), all splits inside one path); "
                  "per-depth access weights counted from the real stream, minimum disk traffic recomputed independently",
@@ -568,3 +599,32 @@ for _pid in ("C05", "C06", "C07", "C13", "C19"):
         "for n <= 5 (quick) / 7 (thorough) the recurrences behind the oracle are compared at start-up with the optimum "
         "over all executable streams found by exhaustive search (vcheck/brute.py); beyond that the published theorems "
         "are trusted"]
+
+
+# ---------------------------------------------------------------------------
+# cost tables at large l against the oracle (cheap; catches pruned / truncated DP searches that
+# only go wrong beyond the reach of the stream sweeps)
+TABLE_VECTORS = [("1", "1", "2", "2"), ("3", "1", "1/2", "4"), ("1", "5", "3", "1/4"), ("2", "1", "0", "0"),
+                 ("1", "1", "5", "7/2"), ("1", "2", "40", "25")]
+
+
+def table_jobs(tier, kinds=("opt0", "optinf", "hopt")):
+    q = tier == "quick"
+    jobs = []
+    if "opt0" in kinds:
+        jobs.append(_job("tables", "opt0/l<=%d" % (140 if q else 320), {"kind": "opt0", "lmax": 140 if q else 320,
+                                                                        "mmax": 8 if q else 10}, w=60, deadline=3000))
+    if "optinf" in kinds:
+        jobs.append(_job("tables", "optinf", {"kind": "optinf", "lmax": 90 if q else 160, "mmax": 6 if q else 7,
+                                              "vectors": TABLE_VECTORS}, w=60, deadline=3000))
+    if "hopt" in kinds:
+        for c in ((2, 3), (4, 4)) if q else ((1, 4), (2, 3), (4, 4), (6, 5)):
+            jobs.append(_job("tables", "hopt/c=%d,%d" % c, {"kind": "hopt", "lmax": 60 if q else 110, "mmax": list(c),
+                                                            "vectors": TABLE_VECTORS}, w=60, deadline=3000))
+    return jobs
+
+
+_c07_jobs = PROPS["C07"]["jobs"]
+PROPS["C07"]["jobs"] = lambda tier: _c07_jobs(tier) + table_jobs(tier)
+_c05_jobs = PROPS["C05"]["jobs"]
+PROPS["C05"]["jobs"] = lambda tier: _c05_jobs(tier) + table_jobs(tier, kinds=("opt0",))
